@@ -147,7 +147,10 @@ func main() {
 		cost int
 	}
 	var jobs []job
-	only := os.Getenv("C05_ONLY")
+	only := os.Getenv("C05_ONLY") // debugging aid: restrict to instructions whose name contains the string
+	if only != "" {
+		run.Capped("C05_ONLY filter (debug run)")
+	}
 	for i, op := range ops {
 		if only != "" && !strings.Contains(op.Name, only) {
 			continue
